@@ -247,5 +247,19 @@ def main(argv=None):
     return 0
 
 
+def guarded_main():
+    """an error of the machinery itself is INCONCLUSIVE (exit 2), never a silent pass and never exit 1 without a VIOLATION line"""
+    try:
+        return main()
+    except SystemExit:
+        raise
+    except BaseException as e:      # noqa
+        import traceback
+        traceback.print_exc()
+        pid = next((x for x in sys.argv[1:] if not x.startswith("-")), "?").upper()
+        print("INCONCLUSIVE property=%s machinery error: %s: %s" % (pid, type(e).__name__, str(e)[:500]))
+        return 2
+
+
 if __name__ == "__main__":
-    sys.exit(main())
+    sys.exit(guarded_main())
